@@ -1,5 +1,97 @@
-import RSVerif.Basic
-/- C17: line-protocol driver (stub) -/
+import RSVerif.Model.DecodeMode
+/- line protocol for C17 (cases of go/harness/c17.go):
+     dec <parallel> <flags> <items> <rdb file hex>   → `ok` + the sorted canonical records the PROPERTY demands
+                                                        (`Spec.DecodeMode.specRecords`), whatever the schedule
+     decbig <parallel> <npairs> <valsize>             → `ok n=<npairs>` (one hash above 16 MiB, built by the harness)
+     b64 <hex>                                        → hex of `b64enc`
+     b64d <hex>                                       → `ok:<hex>` / `err` of `b64dec`
+   items: `/`-separated (`-` = none); `s,db,exp,key,val` `l,db,exp,key,e.e.e` `h,db,exp,key,f=v.f=v` `t,db,exp,key,m.m`
+          `z,db,exp,key,m=bits.m=bits` `a,script` and `x,db,exp,key` (a value DecodeDump rejects: model → abort) -/
 namespace RSVerif.Drive.C17
-def handle (_line : String) : String := "unimplemented"
+open RSVerif RSVerif.Spec.DecodeMode RSVerif.DecodeMode
+
+def be64 (bs : Bytes) : UInt64 := bs.foldl (fun acc b => (acc <<< 8) ||| b.toUInt64) 0
+
+def hex16 (x : UInt64) : String := toHex (le64 x).reverse
+
+/-- split on a separator, with the empty string meaning "no elements". -/
+def parts (s : String) (sep : String) : List String := if s.isEmpty then [] else s.splitOn sep
+
+def optAll {α : Type} : List (Option α) → Option (List α)
+  | [] => some []
+  | none :: _ => none
+  | some x :: r => (optAll r).map (x :: ·)
+
+def parsePair (s : String) : Option (Bytes × Bytes) :=
+  match s.splitOn "=" with
+  | [a, b] => do pure ((← ofHex a), (← ofHex b))
+  | _ => none
+
+def parseScored (s : String) : Option (Bytes × UInt64) :=
+  match s.splitOn "=" with
+  | [a, b] => do
+    let m ← ofHex a
+    let bits ← ofHex b
+    if bits.length = 8 then pure (m, be64 bits) else none
+  | _ => none
+
+inductive CaseItem where
+  | item (it : Item)
+  | undecodable            -- a key whose value `rdb.DecodeDump` rejects (stream): outside the property
+
+def parseItem (s : String) : Option CaseItem :=
+  match s.splitOn "," with
+  | ["a", v] => do pure (.item (.lua (← ofHex v)))
+  | ["x", _, _, _] => some .undecodable
+  | [k, db, exp, key, body] => do
+    let db ← db.toNat?
+    let exp ← exp.toNat?
+    let key ← ofHex key
+    let v ← match k with
+      | "s" => (ofHex body).map Value.str
+      | "l" => (optAll ((parts body ".").map ofHex)).map Value.list
+      | "t" => (optAll ((parts body ".").map ofHex)).map Value.set
+      | "h" => (optAll ((parts body ".").map parsePair)).map Value.hash
+      | "z" => (optAll ((parts body ".").map parseScored)).map Value.zset
+      | _ => none
+    pure (.item (.key ⟨db, exp, key, v⟩))
+  | _ => none
+
+/-- canonical rendering of one demanded record; the text fields are the SPECIFIED text
+    rendering `Spec.DecodeMode.textOf` (theorem `toText_spec` ties decode.go's `toText` to it). -/
+def canon : SRecord → String
+  | .script s => s!"aux:k={hexOrDash (ascii "lua")}:v={hexOrDash s}"
+  | .data db exp key e =>
+    let pre (ty : String) := s!"{ty}:{db}:{exp}:{hexOrDash key}:{hexOrDash (textOf key)}"
+    match e with
+    | .str v => s!"{pre "string"}:v={hexOrDash v}"
+    | .listElem i v => s!"{pre "list"}:i={i}:v={hexOrDash v}"
+    | .hashField f v => s!"{pre "hash"}:f={hexOrDash f}:ft={hexOrDash (textOf f)}:v={hexOrDash v}"
+    | .setMember m => s!"{pre "set"}:m={hexOrDash m}:mt={hexOrDash (textOf m)}"
+    | .zsetMember m sc => s!"{pre "zset"}:m={hexOrDash m}:mt={hexOrDash (textOf m)}:s={hex16 sc}"
+
+def sortStrings (l : List String) : List String := (l.toArray.qsort (fun a b => a < b)).toList
+
+def handle (line : String) : String :=
+  match line.splitOn " " with
+  | ["dec", _par, _flags, items, _file] =>
+    match optAll ((if items == "-" then [] else parts items "/").map parseItem) with
+    | none => "badcase"
+    | some cis =>
+      if cis.any (fun c => match c with | .undecodable => true | _ => false) then "abort"
+      else
+        let its := cis.filterMap fun c => match c with | .item it => some it | _ => none
+        let recs := sortStrings ((its.flatMap specRecords).map canon)
+        String.intercalate " " ("ok" :: recs)
+  | ["decbig", _par, np, _sz] => s!"ok n={np}"
+  | ["b64", h] =>
+    match ofHex h with
+    | some bs => hexOrDash (b64enc bs)
+    | none => "badcase"
+  | ["b64d", h] =>
+    match ofHex h with
+    | some bs => match b64dec bs with | some o => s!"ok:{hexOrDash o}" | none => "err"
+    | none => "badcase"
+  | _ => "badcase"
+
 end RSVerif.Drive.C17
